@@ -88,7 +88,15 @@ impl RespFrame {
     
     /// Create an error response
     pub fn error(msg: impl Into<Vec<u8>>) -> Self {
-        RespFrame::Error(Arc::new(msg.into()))
+        // An error reply is a single line: request content echoed into the message
+        // (e.g. an unknown command name containing CR/LF) must not change the reply framing.
+        let mut bytes: Vec<u8> = msg.into();
+        for b in bytes.iter_mut() {
+            if *b == b'\r' || *b == b'\n' {
+                *b = b' ';
+            }
+        }
+        RespFrame::Error(Arc::new(bytes))
     }
     
     /// Create a null bulk string (valid Redis response)
